@@ -662,3 +662,376 @@ Section SameCode.
     intros x y Hxy Heq. cbn in *. apply cast_mono. now apply Hxy.
   Qed.
 End SameCode.
+
+(** * The collector: syllabary and entries *)
+
+Lemma to_N_inj (a b : byte) : Byte.to_N a = Byte.to_N b -> a = b.
+Proof.
+  intros H. assert (H' : Byte.of_N (Byte.to_N a) = Byte.of_N (Byte.to_N b)) by now rewrite H.
+  rewrite !Byte.of_to_N in H'. now injection H'.
+Qed.
+
+Lemma bytes_ltb_tricho a b : bytes_ltb a b = false -> bytes_ltb b a = false -> a = b.
+Proof.
+  revert b. induction a as [|x a IH]; intros [|y b]; cbn; try discriminate; [reflexivity|].
+  destruct (N.ltb_spec (Byte.to_N x) (Byte.to_N y)); [discriminate|].
+  destruct (N.ltb_spec (Byte.to_N y) (Byte.to_N x)); [discriminate|].
+  intros H1 H2. assert (x = y) by (apply to_N_inj; lia). subst. f_equal. now apply IH.
+Qed.
+
+Lemma set_insert_in s l x : In x (set_insert s l) <-> x = s \/ In x l.
+Proof.
+  induction l as [|y l IH]; cbn; [intuition|].
+  destruct (bytes_ltb s y) eqn:E1; cbn; [intuition|].
+  destruct (bytes_ltb y s) eqn:E2; cbn.
+  - rewrite IH. intuition.
+  - assert (s = y) by now apply bytes_ltb_tricho. subst. intuition.
+Qed.
+
+Lemma fold_set_insert_in raw l x :
+  In x (fold_left (fun s y => set_insert y s) raw l) <-> In x raw \/ In x l.
+Proof.
+  revert l. induction raw as [|y raw IH]; intros l; cbn; [intuition|].
+  rewrite IH, set_insert_in. intuition.
+Qed.
+
+Lemma index_of_nth s l : In s l -> exists i, index_of s l = Some i /\ nth_error l i = Some s /\ i < length l.
+Proof.
+  induction l as [|x l IH]; cbn; [tauto|]. intros H.
+  destruct (bytes_eqb x s) eqn:E.
+  - apply bytes_eqb_eq in E. subst. exists 0. cbn. repeat split; lia.
+  - destruct H as [->|H]; [rewrite bytes_eqb_refl in E; discriminate|].
+    destruct (IH H) as [i [H1 [H2 H3]]]. exists (Datatypes.S i). rewrite H1. cbn. repeat split; [assumption|lia].
+Qed.
+
+Lemma id_of_nth syll s : In s syll -> nth_error syll (id_of syll s) = Some s /\ id_of syll s < length syll.
+Proof. intros H. destruct (index_of_nth s syll H) as [i [H1 [H2 H3]]]. unfold id_of. rewrite H1. auto. Qed.
+
+(* every syllable of every collected entry is in the syllabary *)
+Definition co_inv (c : collector) : Prop :=
+  Forall (fun r => Forall (fun x => In x (co_syll c)) (re_code r)) (co_entries c).
+
+Lemma create_entry_inv word code weight c : co_inv c -> co_inv (create_entry word code weight c).
+Proof.
+  intros H. unfold create_entry.
+  set (raw := split_skip x20 code). set (syll := fold_left (fun s x => set_insert x s) raw (co_syll c)).
+  assert (Hold : Forall (fun r => Forall (fun x => In x syll) (re_code r)) (co_entries c)).
+  { eapply Forall_impl; [|exact H]. intros r Hr. eapply Forall_impl; [|exact Hr].
+    intros x Hx. apply fold_set_insert_in. now right. }
+  assert (Hnew : Forall (fun x => In x syll) raw).
+  { apply Forall_forall. intros x Hx. apply fold_set_insert_in. now left. }
+  destruct raw as [|a [|b rest]]; try (constructor; [exact Hnew|exact Hold]).
+  destruct (existsb (bytes_eqb code) (words_find word (co_words c))); [exact Hold|].
+  constructor; [exact Hnew|exact Hold].
+Qed.
+
+Lemma collect_row_inv r c : co_inv c -> co_inv (collect_row r c).
+Proof.
+  intros H. destruct r as [|w cd wt]; [exact H|]. cbn. destruct cd; [exact H|]. now apply create_entry_inv.
+Qed.
+
+Lemma collect_lines_inv cs lines : forall ec c, co_inv c -> co_inv (collect_lines cs ec lines c).
+Proof.
+  induction lines as [|l r IH]; intros ec c H; cbn; [exact H|].
+  destruct (parse_line cs ec l) as [ec' res]. apply IH. now apply collect_row_inv.
+Qed.
+
+Lemma collect_files_inv files : co_inv (collect_files files).
+Proof.
+  unfold collect_files. assert (H0 : co_inv collector0) by constructor. revert H0. generalize collector0.
+  induction files as [|f fs IH]; intros c H; cbn; [exact H|]. apply IH. now apply collect_lines_inv.
+Qed.
+
+Lemma entries_of_ids c : co_inv c ->
+  Forall (fun e => Forall (fun x => x < length (co_syll c)) (e_code e)) (entries_of c).
+Proof.
+  intros H. unfold entries_of. rewrite Forall_map. apply Forall_rev.
+  eapply Forall_impl; [|exact H]. intros r Hr. cbn. rewrite Forall_map.
+  eapply Forall_impl; [|exact Hr]. intros x Hx. now apply id_of_nth.
+Qed.
+
+(** * enumerate_build for a whole source *)
+
+Theorem enumerate_build_source {F} (cast : dec -> F) (sort_original : bool) (files : list (colspec * list bytes)) :
+  let c := collect_files files in
+  let S := length (co_syll c) in
+  Permutation (enumerate S (build_head cast S (compile_vocab sort_original c)))
+              (map (conv F cast) (map out_of (filter has_code (entries_of c)))).
+Proof.
+  intros c S. unfold compile_vocab.
+  apply (enumerate_build_entries cast S sort_original (entries_of c)).
+  apply entries_of_ids. apply collect_files_inv.
+Qed.
+
+Theorem same_code_sorted_source {F} (cast : dec -> F) (fle : F -> F -> bool)
+        (cast_mono : forall a b, dec_leb a b = true -> fle (cast a) (cast b) = true)
+        (files : list (colspec * list bytes)) :
+  let c := collect_files files in
+  let S := length (co_syll c) in
+  StronglySorted (Rf F fle) (enumerate S (build_head cast S (compile_vocab false c))).
+Proof.
+  intros c S. unfold compile_vocab. apply (same_code_sorted_entries F cast fle cast_mono).
+  apply entries_of_ids. apply collect_files_inv.
+Qed.
+
+(** * Source rows and collected entries: nothing invented, nothing lost *)
+
+Fixpoint parse_lines (cs : colspec) (ec : bool) (lines : list bytes) : list lineres :=
+  match lines with
+  | [] => []
+  | l :: r => let '(ec', res) := parse_line cs ec l in res :: parse_lines cs ec' r
+  end.
+
+(* the rows of a source, in file order *)
+Definition source_rows (files : list (colspec * list bytes)) : list lineres :=
+  flat_map (fun f => parse_lines (fst f) true (snd f)) files.
+
+Definition raw_of (t cs ws : bytes) : rawentry :=
+  {| re_text := t; re_code := split_skip x20 cs; re_w := weight_of_str ws |}.
+
+Lemma collect_lines_fold cs lines : forall ec c,
+  collect_lines cs ec lines c = fold_left (fun c r => collect_row r c) (parse_lines cs ec lines) c.
+Proof.
+  induction lines as [|l r IH]; intros ec c; cbn; [reflexivity|].
+  destruct (parse_line cs ec l) as [ec' res]. cbn. apply IH.
+Qed.
+
+Lemma collect_files_fold files :
+  collect_files files = fold_left (fun c r => collect_row r c) (source_rows files) collector0.
+Proof.
+  unfold collect_files, source_rows. generalize collector0.
+  induction files as [|f fs IH]; intros c; cbn; [reflexivity|].
+  rewrite fold_left_app, <- collect_lines_fold. apply IH.
+Qed.
+
+Definition words_inv (c : collector) : Prop :=
+  forall t cs, In cs (words_find t (co_words c)) ->
+  exists r, In r (co_entries c) /\ re_text r = t /\ re_code r = split_skip x20 cs.
+
+Lemma words_find_add t t' c w cs :
+  In cs (words_find t (words_add t' c w)) -> (t = t' /\ cs = c) \/ In cs (words_find t w).
+Proof.
+  induction w as [|[k v] r IH]; cbn.
+  - destruct (bytes_eqb t' t) eqn:E; cbn; [|tauto]. apply bytes_eqb_eq in E. intros [<-|[]]. left. auto.
+  - destruct (bytes_eqb k t') eqn:E1; cbn.
+    + apply bytes_eqb_eq in E1. subst k. destruct (bytes_eqb t' t) eqn:E2; cbn; [|tauto].
+      apply bytes_eqb_eq in E2. intros [<-|H]; [left; auto|right; assumption].
+    + destruct (bytes_eqb k t); [tauto|exact IH].
+Qed.
+
+Definition is_single (r : rawentry) : bool := match re_code r with [_] => true | _ => false end.
+
+(* one row: what happens to the entry list *)
+Lemma create_entry_entries word code weight c :
+  (co_entries (create_entry word code weight c) = raw_of word code weight :: co_entries c) \/
+  (co_entries (create_entry word code weight c) = co_entries c /\ is_single (raw_of word code weight) = true /\
+   existsb (bytes_eqb code) (words_find word (co_words c)) = true).
+Proof.
+  unfold create_entry, is_single, raw_of. cbn [re_code].
+  destruct (split_skip x20 code) as [|a [|b rest]]; cbn; try (left; reflexivity).
+  destruct (existsb (bytes_eqb code) (words_find word (co_words c))); [right; auto|left; reflexivity].
+Qed.
+
+Lemma create_entry_words_inv word code weight c : words_inv c -> words_inv (create_entry word code weight c).
+Proof.
+  intros H t cs. unfold create_entry.
+  destruct (split_skip x20 code) as [|a [|b rest]] eqn:E; cbn [co_words co_entries].
+  - intros Hin. destruct (H t cs Hin) as [r [H1 H2]]. exists r. split; [now right|assumption].
+  - destruct (existsb (bytes_eqb code) (words_find word (co_words c))); cbn [co_words co_entries].
+    + apply H.
+    + intros Hin. apply words_find_add in Hin. destruct Hin as [[-> ->]|Hin].
+      * eexists. split; [left; reflexivity|]. cbn. auto.
+      * destruct (H t cs Hin) as [r [H1 H2]]. exists r. split; [now right|assumption].
+  - intros Hin. destruct (H t cs Hin) as [r [H1 H2]]. exists r. split; [now right|assumption].
+Qed.
+
+Definition run_rows (rows : list lineres) (c : collector) : collector := fold_left (fun c r => collect_row r c) rows c.
+
+Lemma run_rows_mono rows : forall c r, In r (co_entries c) -> In r (co_entries (run_rows rows c)).
+Proof.
+  unfold run_rows. induction rows as [|x xs IH]; intros c r H; cbn; [assumption|]. apply IH.
+  destruct x as [|t cs ws]; [assumption|]. cbn. destruct cs; [assumption|].
+  destruct (create_entry_entries t (b :: cs) ws c) as [E|[E _]]; rewrite E; [now right|assumption].
+Qed.
+
+(* nothing invented: every collected entry is a source row, text/code/weight as written *)
+Lemma run_rows_sound rows : forall c r, In r (co_entries (run_rows rows c)) ->
+  In r (co_entries c) \/ exists t cs ws, In (LRow t cs ws) rows /\ cs <> [] /\ r = raw_of t cs ws.
+Proof.
+  unfold run_rows. induction rows as [|x xs IH]; intros c r H; cbn in *; [now left|].
+  destruct (IH _ _ H) as [H1|[t [cs [ws [H1 [H2 H3]]]]]].
+  - destruct x as [|t cs ws]; [now left|]. cbn in H1. destruct cs as [|b cs]; [now left|].
+    destruct (create_entry_entries t (b :: cs) ws c) as [E|[E _]]; rewrite E in H1; [|now left].
+    destruct H1 as [<-|H1]; [|now left]. right. exists t, (b :: cs), ws. repeat split; [now left|discriminate].
+  - right. exists t, cs, ws. repeat split; [now right|assumption|assumption].
+Qed.
+
+(* nothing lost: every source row with a code is represented by an entry with its text and code; a
+   multi-syllable row by itself, a one-syllable row possibly by an earlier definition of the same
+   word with the same code ("duplicate word definition") *)
+Lemma run_rows_complete rows : forall c t cs ws, words_inv c -> In (LRow t cs ws) rows -> cs <> [] ->
+  exists r, In r (co_entries (run_rows rows c)) /\ re_text r = t /\ re_code r = split_skip x20 cs /\
+            (is_single r = false -> r = raw_of t cs ws).
+Proof.
+  unfold run_rows. induction rows as [|x xs IH]; intros c t cs ws Hw Hin Hne; cbn in *; [tauto|].
+  destruct Hin as [->|Hin].
+  - cbn. destruct cs as [|b cs]; [congruence|].
+    destruct (create_entry_entries t (b :: cs) ws c) as [E|[E [Hs Hex]]].
+    + exists (raw_of t (b :: cs) ws). split; [|cbn; auto].
+      apply (run_rows_mono xs). rewrite E. now left.
+    + apply existsb_exists in Hex. destruct Hex as [cs' [Hin' Heq]]. apply bytes_eqb_eq in Heq. subst cs'.
+      destruct (Hw t (b :: cs) Hin') as [r [H1 [H2 H3]]].
+      exists r. split; [apply (run_rows_mono xs); rewrite E; exact H1|]. repeat split; [assumption|assumption|].
+      intros Hf. unfold is_single, raw_of in Hf, Hs. cbn [re_code] in Hs. rewrite H3 in Hf. rewrite Hf in Hs. discriminate.
+  - apply IH; [|assumption|assumption]. destruct x as [|t' cs' ws']; [assumption|]. cbn.
+    destruct cs'; [assumption|]. now apply create_entry_words_inv.
+Qed.
+
+(* rows with a multi-syllable code are collected one for one, in order *)
+Definition coded (r : lineres) : list rawentry :=
+  match r with LRow t (b :: cs) ws => [raw_of t (b :: cs) ws] | _ => [] end.
+
+Lemma run_rows_multi rows : forall c,
+  filter (fun r => negb (is_single r)) (rev (co_entries (run_rows rows c))) =
+  filter (fun r => negb (is_single r)) (rev (co_entries c)) ++
+  filter (fun r => negb (is_single r)) (flat_map coded rows).
+Proof.
+  unfold run_rows. induction rows as [|x xs IH]; intros c; cbn [fold_left flat_map]; [cbn; now rewrite app_nil_r|].
+  rewrite IH, filter_app, app_assoc. f_equal.
+  destruct x as [|t cs ws]; [cbn; now rewrite app_nil_r|]. cbn [collect_row coded].
+  destruct cs as [|b cs]; [cbn; now rewrite app_nil_r|].
+  destruct (create_entry_entries t (b :: cs) ws c) as [E|[E [Hs _]]]; rewrite E.
+  - cbn [rev]. rewrite filter_app. reflexivity.
+  - cbn [filter]. rewrite Hs. cbn. now rewrite app_nil_r.
+Qed.
+
+
+Lemma words_inv0 : words_inv collector0.
+Proof. intros t cs []. Qed.
+
+(** * reverse_lookup_exact *)
+
+Definition top_entries (i : nat) (v : voc1) : list entry :=
+  match lvl_find i v with Some p => p_entries p | None => [] end.
+
+Lemma lvl_find_upd {A} k (f : page A -> page A) (v : lvl A) i :
+  StronglySorted lt (map fst v) ->
+  lvl_find i (upd k f v) =
+  if i =? k then Some (f (match lvl_find k v with Some p => p | None => page0 end)) else lvl_find i v.
+Proof.
+  induction v as [|[k' p] r IH]; intros Hs; cbn [upd].
+  - cbn [lvl_find]. rewrite (Nat.eqb_sym k i). reflexivity.
+  - cbn [map fst] in Hs. inversion Hs as [|? ? Hs' Hlt]; subst.
+    assert (Hr : forall j, j <= k' -> lvl_find j r = None).
+    { intros j Hj. apply lvl_find_none_lt. rewrite Forall_forall in *. intros [k2 p2] Hin. cbn.
+      assert (k' < k2) by (apply Hlt; apply in_map_iff; exists (k2, p2); auto). lia. }
+    destruct (Nat.ltb_spec k k').
+    + cbn [lvl_find]. rewrite (Nat.eqb_sym k i). destruct (Nat.eqb_spec i k) as [Heq|Hne]; [|reflexivity].
+      destruct (Nat.eqb_spec k' k); [lia|]. rewrite Hr by lia. reflexivity.
+    + destruct (Nat.eqb_spec k k') as [Heq|Hne].
+      * subst k'. cbn [lvl_find]. rewrite Nat.eqb_refl. rewrite (Nat.eqb_sym k i). destruct (i =? k); reflexivity.
+      * cbn [lvl_find]. rewrite IH by assumption.
+        destruct (Nat.eqb_spec k' i) as [Heq2|Hne2].
+        -- subst i. destruct (Nat.eqb_spec k' k); [lia|reflexivity].
+        -- destruct (Nat.eqb_spec k' k); [lia|reflexivity].
+Qed.
+
+Lemma top_entries_ins1 S e v i : wf1 S v ->
+  top_entries i (ins1 e (e_code e) v) =
+  top_entries i v ++ (if match e_code e with [a] => a =? i | _ => false end then [e] else []).
+Proof.
+  intros [Hs _]. unfold top_entries, ins1, ins_lvl.
+  destruct (e_code e) as [|a [|b rest]]; [now rewrite app_nil_r| |].
+  - rewrite lvl_find_upd by assumption. rewrite (Nat.eqb_sym a i). destruct (Nat.eqb_spec i a) as [->|Hne].
+    + cbn. destruct (lvl_find a v); reflexivity.
+    + now rewrite app_nil_r.
+  - rewrite lvl_find_upd by assumption. destruct (Nat.eqb_spec i a) as [->|Hne].
+    + cbn. destruct (lvl_find a v); [now rewrite app_nil_r|reflexivity].
+    + now rewrite app_nil_r.
+Qed.
+
+Lemma top_entries_vocab_of S es i e :
+  Forall (fun e => Forall (fun x => x < S) (e_code e)) es ->
+  In e (top_entries i (vocab_of es)) <-> In e es /\ e_code e = [i].
+Proof.
+  intros Hes. unfold vocab_of.
+  assert (G : forall v, wf1 S v ->
+              (In e (top_entries i (fold_left (fun v e => ins1 e (e_code e) v) es v)) <->
+               In e (top_entries i v) \/ (In e es /\ e_code e = [i]))).
+  { induction Hes as [|x xs Hx _ IH]; intros v Hv; cbn [fold_left]; [cbn; tauto|].
+    rewrite IH by (now apply ins1_wf). rewrite (top_entries_ins1 S) by assumption. rewrite in_app_iff.
+    split.
+    - intros [[H|H]|[H1 H2]]; [now left| |right; split; [now right|assumption]].
+      destruct (e_code x) as [|a [|b rest]] eqn:E; try destruct H.
+      destruct (Nat.eqb_spec a i) as [->|]; [|destruct H]. destruct H as [<-|[]]. right. split; [now left|assumption].
+    - intros [H|[[<-|H1] H2]]; [left; now left| |right; auto].
+      left. right. rewrite H2, Nat.eqb_refl. now left. }
+  rewrite (G [] (wf_lvl_nil _ _)). cbn. tauto.
+Qed.
+
+Lemma top_entries_sort1 i v e : In e (top_entries i (sort1 v)) <-> In e (top_entries i v).
+Proof.
+  unfold top_entries, sort1, sort_lvl. induction v as [|[k p] r IH]; cbn; [tauto|].
+  destruct (k =? i); [|exact IH]. cbn. split; [apply sort_entries_in|].
+  intros H. apply (Permutation_in e (Permutation_sym (sort_entries_perm (p_entries p)))). exact H.
+Qed.
+
+Lemma in_combine_seq {A} (l : list A) i x a :
+  In (i, x) (combine (seq a (length l)) l) <-> a <= i /\ nth_error l (i - a) = Some x.
+Proof.
+  revert a. induction l as [|y l IH]; intros a; cbn [length seq combine].
+  - cbn. split; [tauto|]. intros [_ H]. destruct (i - a); discriminate.
+  - cbn [In]. rewrite IH. split.
+    + intros [H|[H1 H2]].
+      * injection H as -> ->. rewrite Nat.sub_diag. cbn. auto.
+      * split; [lia|]. replace (i - a) with (Datatypes.S (i - Datatypes.S a)) by lia. exact H2.
+    + intros [H1 H2]. destruct (Nat.eq_dec i a) as [->|Hne].
+      * rewrite Nat.sub_diag in H2. cbn in H2. injection H2 as ->. now left.
+      * right. split; [lia|]. replace (i - a) with (Datatypes.S (i - Datatypes.S a)) in H2 by lia. exact H2.
+Qed.
+
+(* the syllables ReverseDb::Build records for a text: exactly the one-syllable codes of its entries *)
+Theorem reverse_lookup_entries S syll (sort_original : bool) es text s :
+  S = length syll ->
+  Forall (fun e => Forall (fun x => x < S) (e_code e)) es ->
+  let v := if sort_original then vocab_of es else sort1 (vocab_of es) in
+  In s (rev_codes syll v text) <->
+  exists i e, nth_error syll i = Some s /\ In e es /\ e_text e = text /\ e_code e = [i].
+Proof.
+  intros HS Hes v. unfold rev_codes. rewrite in_map_iff. split.
+  - intros [[i s'] [Hs Hin]]. cbn in Hs. subst s'. apply filter_In in Hin. destruct Hin as [Hc Ht].
+    apply in_combine_seq in Hc. destruct Hc as [_ Hn]. rewrite Nat.sub_0_r in Hn. cbn [fst] in Ht.
+    destruct (lvl_find i v) as [p|] eqn:E; [|discriminate].
+    apply existsb_exists in Ht. destruct Ht as [e [He Hte]]. apply bytes_eqb_eq in Hte.
+    assert (Hin : In e (top_entries i (vocab_of es))).
+    { subst v. destruct sort_original; [|apply top_entries_sort1]; unfold top_entries; rewrite E; exact He. }
+    apply (top_entries_vocab_of S) in Hin; [|assumption]. destruct Hin as [H1 H2]. exists i, e. auto.
+  - intros [i [e [Hn [He [Ht Hc]]]]]. exists (i, s). split; [reflexivity|]. apply filter_In. split.
+    + apply in_combine_seq. rewrite Nat.sub_0_r. split; [lia|assumption].
+    + cbn [fst]. assert (Hin : In e (top_entries i v)).
+      { subst v. destruct sort_original; [|apply top_entries_sort1]; apply (top_entries_vocab_of S); auto. }
+      unfold top_entries in Hin. destruct (lvl_find i v) as [p|]; [|destruct Hin].
+      apply existsb_exists. exists e. split; [assumption|]. apply bytes_eqb_eq. assumption.
+Qed.
+
+Theorem reverse_lookup_source (sort_original : bool) (files : list (colspec * list bytes)) text s :
+  let c := collect_files files in
+  In s (rev_codes (co_syll c) (compile_vocab sort_original c) text) <->
+  exists r, In r (co_entries c) /\ re_text r = text /\ re_code r = [s].
+Proof.
+  intros c. unfold compile_vocab.
+  pose proof (collect_files_inv files) as Hinv. fold c in Hinv.
+  rewrite (reverse_lookup_entries (length (co_syll c)) (co_syll c) sort_original (entries_of c) text s eq_refl
+             (entries_of_ids c Hinv)).
+  unfold entries_of. split.
+  - intros [i [e [Hn [He [Ht Hc]]]]]. apply in_map_iff in He. destruct He as [r [<- Hr]]. apply in_rev in Hr.
+    exists r. split; [assumption|]. split; [exact Ht|]. cbn in Hc.
+    destruct (re_code r) as [|s' [|]] eqn:E; try discriminate. injection Hc as Hc.
+    unfold co_inv in Hinv. rewrite Forall_forall in Hinv. specialize (Hinv r Hr). rewrite E in Hinv.
+    inversion Hinv as [|? ? Hs' _]; subst. destruct (id_of_nth _ _ Hs') as [H1 _]. congruence.
+  - intros [r [Hr [Ht Hc]]]. exists (id_of (co_syll c) s), (short_of (co_syll c) r).
+    unfold co_inv in Hinv. rewrite Forall_forall in Hinv. pose proof (Hinv r Hr) as Hs. rewrite Hc in Hs.
+    inversion Hs as [|? ? Hs' _]; subst. destruct (id_of_nth _ _ Hs') as [H1 _].
+    split; [assumption|]. split; [apply in_map; now apply in_rev in Hr|].
+    split; [reflexivity|cbn; now rewrite Hc].
+Qed.
